@@ -1,6 +1,6 @@
 (* C06_proof.v -- optional tasks: rules honoured; an unscheduled task occupies no worker. *)
 From Coq Require Import ZArith List Bool Lia ZifyBool.
-From PS.model Require Import Smt Enc Prog.
+From PS.model Require Import Smt Enc Ind Prog.
 From PS.spec Require Import Spec.
 From PS.proofs Require Import Base Cons_proof Res_proof Wf_proof.
 Import ListNotations.
